@@ -136,7 +136,11 @@ def do_import(env, store, ep, text, src_gid):
         return imp.import_graph_from_string(graph_string=text), None
     if ep == 'from_string_direct':
         return imp.import_graph_from_string_direct(graph_string=text), src_gid
-    path = os.path.join(env.tmp, fresh_id('f') + '.txt')
+    # half of the file imports go through ONE path that is overwritten each time (a user saving to 'slice.graphml' again)
+    reuse = env.ctx.rng.random() < 0.5
+    path = os.path.join(env.tmp, 'model.txt' if reuse else fresh_id('f') + '.txt')
+    if reuse and ep in ('from_file_newid', 'from_file_direct', 'topology_load_file'):
+        env.ctx.count('file-import-through-reused-path')
     if ep in ('from_file_newid', 'from_file_direct', 'topology_load_file'):
         with open(path, 'w', encoding='utf-8') as f:
             f.write(text)
